@@ -526,7 +526,7 @@ def poolstruct_step(pid, tier, cov, violations):
     """spec/PoolStruct.tla: the pointer-level idle queue and connection list refine the sequences Transport.tla uses (exhaustive),
     two deviations must break the refinement (vacuity), and every written-out history is stepped through the real connQueue / conns."""
     INV = ['QueueRefines', 'ResultsRefine', 'ListRefines', 'RoundRobin', 'Emit']
-    runs = [('queue', 2, 6 if tier == 'quick' else 8), ('conns', 3, 7 if tier == 'quick' else 8)]
+    runs = [('queue', 2, 6), ('conns', 3, 7)] if tier == 'quick' else [('queue', 2, 7), ('queue', 3, 7), ('queue', 1, 6), ('conns', 3, 7), ('conns', 2, 8)]
     cov.setdefault('poolstruct', [])
     for mode, cap, depth in runs:
         c = {'Cap': cap, 'Vals': {1, 2, 3}, 'Depth': depth, 'Mode': mode, 'Deviation': 'none'}
